@@ -1,4 +1,5 @@
 import Dbus.Proofs.Bus.Limits
+import Dbus.Proofs.Bus.Monitors
 /-
   C18 — a monitor sees everything that matches and can affect nothing.
 
@@ -217,5 +218,55 @@ theorem monitor_rules_eavesdrop : ∀ (texts : List Bytes) (rules : List MatchRu
       · cases h
     · cases h
     · cases h
+
+/-! ### what the other clients observe
+
+  FULL STATEMENT (C18, not proved in this generality): for every history, the deliveries to
+  connections that are not monitors are the same as in the history in which the monitors never
+  became monitors.  It is tested differentially on the daemon (every history re-run with the
+  monitor gone) and holds structurally in the model (`Tx.mon` is written, never read).
+
+  PROVED PART (`…_partial`): one dispatch.  With every monitor turned back into an idle ordinary
+  connection (`shade`: same place among the connections, no filter, not a monitor) the gate gives
+  the same verdicts, the same connections have a matching rule, and routing a message or sending a
+  driver message produces the same ordinary deliveries, the same error and the same state changes.
+  What is missing for the full statement is the same congruence for the driver's methods and the
+  disconnect path, and the induction over histories. -/
+
+theorem gate_ignores_monitors (b : Bus) (s a p : Option ConnId) (m : Msg) :
+    checkPolicy (shade b) s a p m = checkPolicy b s a p m := checkPolicy_shade b s a p m
+
+theorem others_observe_the_same_partial (b : Bus) (hc : MonClean b) (c : ConnId) (m : Msg) :
+    (route { bus := shade b } c m).1.out = (route { bus := b } c m).1.out ∧
+    (route { bus := shade b } c m).2 = (route { bus := b } c m).2 ∧
+    (route { bus := shade b } c m).1.bus = shade (route { bus := b } c m).1.bus := by
+  have h := shadow_route (t := { bus := b }) (t' := { bus := shade b }) ⟨rfl, rfl⟩ hc c m
+  exact ⟨h.1.2, h.2, h.1.1⟩
+
+theorem driver_sends_the_same_partial (b : Bus) (to : ConnId) (m : Msg) :
+    (sendFromDriver { bus := shade b } to m).out = (sendFromDriver { bus := b } to m).out ∧
+    (sendFromDriver { bus := shade b } to m).bus = shade (sendFromDriver { bus := b } to m).bus := by
+  have h := shadow_sendFromDriver (t := { bus := b }) (t' := { bus := shade b }) ⟨rfl, rfl⟩ to m
+  exact ⟨h.2, h.1⟩
+
+/-- the side condition is what `BecomeMonitor` establishes: the new monitor is left without ordinary rules -/
+theorem new_monitor_has_no_rules (c : ConnId) (x : Conn) (rules : List MatchRule) (b : Bus) :
+    ∀ y ∈ (joinMonitors c x rules b).conns, y.id = c → y.rules = [] ∧ y.monitor = true := by
+  intro y hy hid
+  unfold joinMonitors Bus.updConn at hy
+  simp only [List.mem_map] at hy
+  obtain ⟨y0, _, rfl⟩ := hy
+  by_cases h : (y0.id == c) = true
+  · simp only [h, if_true]; trivial
+  · simp only [h, if_false] at hid ⊢
+    exact absurd (by simpa using hid) h
+
+/-- the hypotheses are met by a bus with a monitor in it -/
+example : MonClean { conns := [{ id := 1, uid := 0, monitor := true, monitorRules := [default] }, { id := 2, uid := 0, rules := [default] }] } := by
+  intro x hx hm
+  simp only [List.mem_cons, List.mem_nil_iff, or_false] at hx
+  rcases hx with rfl | rfl
+  · rfl
+  · cases hm
 
 end Dbus.Props.C18
